@@ -15,20 +15,29 @@ def hexStr? (h : String) : Option String :=
 
 def hexOf (s : String) : String := bytesHex (s.toUTF8.toList.map (·.toNat))
 
-/-- `k=<hexv>` or `k=#<hexv>` (# = the value is sent as a bare JSON number by the OTSDB datapoints with an even point
-    index); the second component lists the keys marked # -/
-def parseLabel (kv : String) : Option ((String × String) × Bool) :=
+/-- `k=<hexv>`, `k=#<hexv>` (# = the value is sent as a bare JSON number by the OTSDB datapoints with an even point
+    index), `k=^<hexv>` (^ = the OTSDB datapoints with an odd point index spell the first byte of the value as a \u00XX
+    escape: the same value), `k=!t` / `k=!n` / `k=!q<hexv>` (the value is sent as JSON true / null / as the string
+    <v>\q, an invalid escape sequence: not a tag value, the datapoint must be rejected);
+    the flag is 1 for #, 2 for the ! forms, 0 otherwise -/
+def parseLabel (kv : String) : Option ((String × String) × Nat) :=
   match kv.splitOn "=" with
   | [k, v] =>
+    if v == "!t" then some ((k, "true"), 2) else
+    if v == "!n" then some ((k, "null"), 2) else
+    if v.startsWith "!q" then (hexStr? (v.drop 2).toString).map (fun (x : String) => ((k, x), 2)) else
+    if v.startsWith "!" then none else
     let num : Bool := v.startsWith "#"
-    (hexStr? (if num then (v.drop 1).toString else v)).map (fun (x : String) => ((k, x), num))
+    let esc : Bool := v.startsWith "^"
+    (hexStr? (if num || esc then (v.drop 1).toString else v)).map (fun (x : String) => ((k, x), if num then 1 else 0))
   | _ => none
 
-def parseLabels (s : String) : Option (List (String × String) × List String) :=
-  if s.isEmpty then some ([], []) else
+/-- labels, keys marked #, keys of the ! forms -/
+def parseLabels (s : String) : Option (List (String × String) × List String × List String) :=
+  if s.isEmpty then some ([], [], []) else
   match (s.splitOn ",").mapM parseLabel with
   | none => none
-  | some l => some (l.map (·.1), (l.filter (·.2)).map (·.1.1))
+  | some l => some (l.map (·.1), (l.filter (·.2 == 1)).map (·.1.1), (l.filter (·.2 == 2)).map (·.1.1))
 
 def parsePoints (s : String) : Option (List (Nat × Nat)) :=
   if s.isEmpty then some [] else
@@ -41,8 +50,9 @@ def parsePoints (s : String) : Option (List (Nat × Nat)) :=
 def parseSeries (tok : String) : Option Series :=
   match tok.splitOn "{" with
   | [n, rest] => match rest.splitOn "}@" with
-    | [ls, ps] => match hexStr? n, parseLabels ls, parsePoints ps with
-      | some n, some ls, some ps => some { name := n, labels := ls.1, points := ps, numKeys := ls.2 }
+    -- a leading ^ : the OTSDB datapoints with an odd point index spell the first byte of the NAME as a \u00XX escape
+    | [ls, ps] => match hexStr? (if n.startsWith "^" then (n.drop 1).toString else n), parseLabels ls, parsePoints ps with
+      | some n, some ls, some ps => some { name := n, labels := ls.1, points := ps, numKeys := ls.2.1, badKeys := ls.2.2 }
       | _, _, _ => none
     | _ => none
   | _ => none
@@ -57,12 +67,13 @@ def parseSeriesList : List String → Option (List Series)
 /-- the data set after the history: every series keeps exactly the points the history ingests -/
 def applyHistory (ss : List Series) (hist : List String) : Option (List Series) :=
   -- p<i>.<j> = OTSDB JSON, w<i>.<j> = Prometheus remote write (same datapoint, other protocol)
-  let refs : Option (List (Nat × Nat × Bool)) := (hist.filter (fun t => t != "ro" && t != "br")).mapM (fun t =>
+  let refs : Option (List (Nat × Nat × Bool)) := (hist.filter (fun t => t != "ro" && t != "br" && t != "tf" && t != "cr")).mapM (fun t =>
     if t.startsWith "p" || t.startsWith "w" then match ((t.drop 1).toString).splitOn "." with
       | [i, j] => match i.toNat?, j.toNat? with
         | some i, some j =>
           -- (remote write cannot express a tag named __name__: that label IS the metric name there)
-          if i < ss.length && j < (ss.getD i default).points.length && !(t.startsWith "w" && (ss.getD i default).keys.contains "__name__")
+          if i < ss.length && j < (ss.getD i default).points.length &&
+             !(t.startsWith "w" && ((ss.getD i default).keys.contains "__name__" || !(ss.getD i default).badKeys.isEmpty))
           then some (i, j, t.startsWith "w") else none
         | _, _ => none
       | _ => none
@@ -76,6 +87,23 @@ def applyHistory (ss : List Series) (hist : List String) : Option (List Series) 
       { s with points := mine.map (fun (_, j, _) => s.points.getD j default),
                viaRW := mine.any (·.2.2),
                numKeys := if numSent then s.numKeys else [] }))
+
+/-- history tokens `tf` (one pass of the tags-tree flush timer) and `cr` (the WAL timers run once, the process is killed,
+    a new process recovers): does some crash hit an accepted series whose tags are in memory only — a series seen for the
+    first time since the last segment rotation / restart and after the last tags-tree flush?  (known finding
+    `crash-before-tags-flush`: the tags trees are in no WAL) -/
+def crashBeforeTagsFlush (ss : List Series) (hist : List String) : Bool :=
+  let step (st : List Nat × List Nat × Bool) (t : String) : List Nat × List Nat × Bool :=
+    let (flushed, dirty, risk) := st
+    if t == "tf" then (flushed ++ dirty, [], risk)
+    else if t == "ro" then ([], [], risk)
+    else if t == "cr" then ([], [], risk || !dirty.isEmpty)
+    else if t.startsWith "p" || t.startsWith "w" then
+      match ((t.drop 1).toString.splitOn ".").head?.bind (·.toNat?) with
+      | some i => if accepted (ss.getD i default) && !flushed.contains i && !dirty.contains i then (flushed, i :: dirty, risk) else st
+      | none => st
+    else st
+  (hist.foldl step ([], [], false)).2.2
 
 def parseMOp (s : String) : Option MOp :=
   match s with | "eq" => some .eq | "ne" => some .ne | "re" => some .re | "nre" => some .nre | _ => none
@@ -122,12 +150,12 @@ def showFn : AggFn → String
 
 def sortStrings (l : List String) : List String := sortBy (fun a b => a ≤ b) l
 
-def answer (ds : List Series) (q : Query) : String :=
+def answer (xcls : List String) (ds : List Series) (q : Query) : String :=
   match calcInterval (q.end_ - q.start) with
   | none => "kind=bad-range"
   | some _ =>
     let sel := selected ds q
-    let cls := ",".intercalate (classes ds q sel)
+    let cls := ",".intercalate (classes ds q sel ++ xcls)
     let lat := ",".intercalate (latitude q sel)
     match q.agg with
     | none =>
@@ -170,16 +198,93 @@ def parseBinQuery (tok : String) : Option BinQuery :=
     | _, _, _, _, _, _ => none
   | _ => none
 
+/-! ### expressions (Spec/Metrics.lean `evalExpr`): scalar operands, unary minus, on()/ignoring(), nesting
+   query token:  bx!<start>!<end>!<expr>      with <expr> in prefix form, fields separated by `!`:
+     v!<style>!<matchers>!<agg|->                      a vector operand (as in `bin!`)
+     s!<numerator>!<denominator>                       a number literal (an integer or a short decimal, as a fraction)
+     n!<expr>                                          unary minus
+     o!<op>!<0|1 bool>!<d|on|ig>!<l1+l2|->!<expr>!<expr>   binary operator; matching: default / on(l…) / ignoring(l…)
+   answer:       kind=mbin ser=… cls=… lat=…            as for `bin!` -/
+
+def parseVMatch (k ls : String) : Option VMatch :=
+  let l := if ls == "-" then [] else ls.splitOn "+"
+  match k with
+  | "d" => if ls == "-" then some .default else none
+  | "on" => some (.on l)
+  | "ig" => some (.ignoring l)
+  | _ => none
+
+def parseInt? (s : String) : Option Int :=
+  if s.startsWith "-" then ((s.drop 1).toString.toNat?).map (fun n => -(n : Int)) else s.toNat?.map (fun n => (n : Int))
+
+/-- one expression from the front of the token list; the fuel bounds the recursion -/
+def parseExpr : Nat → List String → Option (Expr × List String)
+  | 0, _ => none
+  | fuel + 1, toks =>
+    match toks with
+    | "v" :: st :: ms :: ag :: rest => (parseOperand st ms ag).map (fun o => (Expr.vec o, rest))
+    | "s" :: a :: b :: rest => match parseInt? a, b.toNat? with
+      | some a, some b => if b == 0 then none else some (Expr.num ((a : Rat) / (b : Rat)), rest)
+      | _, _ => none
+    | "n" :: rest => (parseExpr fuel rest).map (fun (e, r) => (Expr.neg e, r))
+    | "o" :: op :: b :: mk :: ls :: rest =>
+      match parseBinOp op, (if b == "0" then some false else if b == "1" then some true else none), parseVMatch mk ls with
+      | some op, some b, some m =>
+        (parseExpr fuel rest).bind (fun (l, r1) => (parseExpr fuel r1).map (fun (r, r2) => (Expr.bin op b m l r, r2)))
+      | _, _, _ => none
+    | _ => none
+
+structure ExprQuery where
+  start : Nat
+  end_ : Nat
+  expr : Expr
+
+def parseExprQuery (tok : String) : Option ExprQuery :=
+  match tok.splitOn "!" with
+  | "bx" :: a :: e :: rest =>
+    match a.toNat?, e.toNat?, parseExpr (rest.length + 1) rest with
+    | some a, some e, some (x, []) => if a ≤ e then some { start := a, end_ := e, expr := x } else none
+    | _, _, _ => none
+  | _ => none
+
+/-- `lv/<start>/<end>/<label>`: GET /promql/api/v1/label/<label>/values -/
+structure LvQuery where
+  start : Nat
+  end_ : Nat
+  label : String
+
+def parseLvQuery (tok : String) : Option LvQuery :=
+  match tok.splitOn "/" with
+  | ["lv", a, b, l] => match a.toNat?, b.toNat? with
+    | some a, some b => if a ≤ b && !l.isEmpty && l != "__name__" then some { start := a, end_ := b, label := l } else none
+    | _, _ => none
+  | _ => none
+
 inductive AnyQuery where
   | plain (q : Query)
   | bin (q : BinQuery)
+  | expr (q : ExprQuery)
+  | lv (q : LvQuery)
 
 def parseAnyQuery (tok : String) : Option AnyQuery :=
-  if tok.startsWith "bin!" then (parseBinQuery tok).map .bin else (parseQuery tok).map .plain
+  if tok.startsWith "bin!" then (parseBinQuery tok).map .bin
+  else if tok.startsWith "bx!" then (parseExprQuery tok).map .expr
+  else if tok.startsWith "lv/" then (parseLvQuery tok).map .lv
+  else (parseQuery tok).map .plain
 
 def dedupS (l : List String) : List String := l.foldl (fun acc x => if acc.contains x then acc else acc ++ [x]) []
 
-def answerBin (ds : List Series) (q : BinQuery) : String :=
+def showPt : BinPt → String
+  | .val v => showRat v
+  | .inf n => if n then "-inf" else "inf"
+  | .nan => "nan"
+  | .open => "?"
+
+def showXElems (es : List XElem) : String :=
+  ";".intercalate (sortStrings (es.map (fun (k, pts) =>
+    showLabels k ++ "@" ++ ",".intercalate ((sortBy (fun a b => a.1 ≤ b.1) pts).map (fun (t, p) => s!"{t}:{showPt p}")))))
+
+def answerBin (xcls : List String) (ds : List Series) (q : BinQuery) : String :=
   match calcInterval (q.end_ - q.start) with
   | none => "kind=bad-range"
   | some _ =>
@@ -187,31 +292,54 @@ def answerBin (ds : List Series) (q : BinQuery) : String :=
     let qr := q.rhs.query q
     let sl := selected ds ql
     let sr := selected ds qr
-    let cls := ",".intercalate (dedupS (classes ds ql sl ++ classes ds qr sr))
+    let cls := ",".intercalate (dedupS (classes ds ql sl ++ classes ds qr sr ++ xcls))
     let lat := ",".intercalate (dedupS (latitude ql sl ++ latitude qr sr))
     match evalOperand ds q q.lhs, evalOperand ds q q.rhs with
     | some l, some r =>
       if hasDupLabels (l.map (·.1)) || hasDupLabels (r.map (·.1)) then s!"kind=mbin-undefined cls={cls} lat={lat}" else
-      let cls := ",".intercalate (dedupS (classes ds ql sl ++ classes ds qr sr ++ (if binopLabelOrder q l r then ["binop-label-order"] else []) ++
-        (if binopTrailingComma q l r then ["binop-trailing-comma"] else [])))
-      let ser := sortStrings ((evalBin q.op q.retBool l r).map (fun (k, pts) =>
-        showLabels k ++ "@" ++ ",".intercalate ((sortBy (fun a b => a.1 ≤ b.1) pts).map (fun (t, p) => match p with
-          | .val v => s!"{t}:{showRat v}"
-          | .open => s!"{t}:?"))))
-      s!"kind=mbin ser={";".intercalate ser} cls={cls} lat={lat}"
+      let cls := ",".intercalate (dedupS (classes ds ql sl ++ classes ds qr sr ++ xcls ++ (if binopLabelOrder q l r then ["binop-label-order"] else []) ++
+        (if binopTrailingComma q l r then ["binop-trailing-comma"] else []) ++ vvClasses .default q.op (l.map liftElem) (r.map liftElem)))
+      s!"kind=mbin ser={showXElems (evalBin q.op q.retBool l r)} cls={cls} lat={lat}"
     | _, _ => s!"kind=mbin-undefined cls={cls} lat={lat}"
 
-def answerAny (ds : List Series) : AnyQuery → String
-  | .plain q => answer ds q
-  | .bin q => answerBin ds q
+def answerExpr (xcls : List String) (ds : List Series) (q : ExprQuery) : String :=
+  match calcInterval (q.end_ - q.start) with
+  | none => "kind=bad-range"
+  | some _ =>
+    let ops := q.expr.operands
+    let qs : List Query := ops.map (fun o => { start := q.start, end_ := q.end_, matchers := o.matchers, agg := o.agg })
+    let cls := ",".intercalate (dedupS (qs.flatMap (fun qq => classes ds qq (selected ds qq)) ++ xcls ++ exprClasses ds q.start q.end_ q.expr))
+    let lat := ",".intercalate (dedupS (qs.flatMap (fun qq => latitude qq (selected ds qq))))
+    match evalExpr ds q.start q.end_ q.expr with
+    | some (.vector es) => s!"kind=mbin ser={showXElems es} cls={cls} lat={lat}"
+    | _ => s!"kind=mbin-undefined cls={cls} lat={lat}"
+
+/-- the values of a label over the accepted series that hold at least one ingested point (the tags trees are not
+    indexed by time: the range is not applied to the points) -/
+def answerLv (xcls : List String) (ds : List Series) (q : LvQuery) : String :=
+  let vals := dedupS (((ds.filter accepted).filter (fun s => !s.points.isEmpty)).filterMap (fun s =>
+    (s.labels.find? (·.1 == q.label)).map (·.2)))
+  let cls := ",".intercalate (xcls ++ (if (ds.filter (fun s => !s.points.isEmpty)).any (fun s => !s.badKeys.isEmpty) then ["tag-value-not-a-string"] else []))
+  s!"kind=mlv vals={",".intercalate (sortStrings (vals.map hexOf))} cls={cls} lat="
+
+def answerAny (xcls : List String) (ds : List Series) : AnyQuery → String
+  | .plain q => answer xcls ds q
+  | .bin q => answerBin xcls ds q
+  | .expr q => answerExpr xcls ds q
+  | .lv q => answerLv xcls ds q
 
 def me (args : List String) : String :=
   let (ser, r1) := args.span (· != "H")
   let (hist, r2) := (r1.drop 1).span (· != "Q")
   let qs := r2.drop 1
   if r1.isEmpty || r2.isEmpty || qs.isEmpty then "bad-op" else
-  match (parseSeriesList ser).bind (applyHistory · hist), qs.mapM parseAnyQuery with
-  | some ds, some qs => " | ".intercalate (qs.map (answerAny ds))
+  match parseSeriesList ser, qs.mapM parseAnyQuery with
+  | some ss, some qs =>
+    match applyHistory ss hist with
+    | some ds =>
+      let xcls := if crashBeforeTagsFlush ss hist then ["crash-before-tags-flush"] else []
+      " | ".intercalate (qs.map (answerAny xcls ds))
+    | none => "bad-op"
   | _, _ => "bad-op"
 
 /-! ### command `mc`: MANY series that share one tag value (cardinality; harness/cmd/corr/e2e_metrics.go execE2EMC)
